@@ -17,6 +17,9 @@ def _is(v, *cls):
 def call_builtin(X, f, args, kwargs):
     name = f.name
     obj = f.obj
+    r0 = X.contract.builtin_hook(X, name, args, kwargs) if hasattr(X.contract, 'builtin_hook') else None
+    if r0 is not None:
+        return r0
     if obj is len:
         (a,) = args
         if _is(a, VBytes, VStr, VJoin) and not _is(a, VJoin):
